@@ -170,10 +170,10 @@ def load_module(b):
         return QModule.parse(b)
 
 
-def run_module(module, script=None, budget=200000, on_tick=None, observer=None):
+def run_module(module, script=None, budget=200000, on_tick=None, observer=None, recorder=None):
     """Runs by ticking the CPU ourselves.  Returns (recorder, outcome) where
     outcome = {'how': 'halt'|'eoc'|'trap'|'budget'|'script'|'host-exception', ...}."""
-    rec = Recorder(script)
+    rec = recorder if recorder is not None else Recorder(script)
     sink = io.StringIO()
     with contextlib.redirect_stdout(sink):
         m = QvmMachine(module, impl=rec)
